@@ -66,6 +66,16 @@ func runC07(m *Sim) {
 			n.DoAuthorizeServer(as)
 			em := SignMigration(s, server.EquipmentMigration{Equipment: dev.Key.Pub, NewGCA: Key("gcaNew").Pub, NewShortID: 5})
 			n.DoMigrate(em)
+			// A genuinely signed structure altered afterwards (signature kept).
+			em2 := em
+			em2.NewShortID++
+			n.DoMigrate(em2)
+			as2 := as
+			as2.HttpPort++
+			n.DoAuthorizeServer(as2)
+			a2 := a
+			a2.Capacity++
+			n.DoAuthorize(a2)
 			// An order that names its own signer as the new GCA: only the
 			// current GCA's signature counts, never the new one's.
 			n.DoMigrate(SignMigration(s, server.EquipmentMigration{Equipment: Key("dev-self").Pub, NewGCA: s.Pub, NewShortID: 6}))
